@@ -1,0 +1,48 @@
+// SPDX-FileCopyrightText: 2026 The Pion community <https://pion.ly>
+// SPDX-License-Identifier: MIT
+
+//go:build verif
+
+package mux
+
+import (
+	"net"
+
+	"github.com/pion/logging"
+)
+
+// VerifNewMux creates a Mux without a readLoop: the verification harness calls VerifDispatch
+// itself, one datagram at a time, as the readLoop would (property C27).
+func VerifNewMux(conn net.Conn, bufferSize int, loggerFactory logging.LoggerFactory) *Mux {
+	closedCh := make(chan struct{})
+	close(closedCh) // there is no readLoop to wait for in Close
+
+	return &Mux{
+		nextConn:   conn,
+		endpoints:  make(map[*Endpoint]MatchFunc),
+		bufferSize: bufferSize,
+		closedCh:   closedCh,
+		log:        loggerFactory.NewLogger("mux"),
+	}
+}
+
+// VerifDispatch forwards to dispatch.
+func (m *Mux) VerifDispatch(buf []byte) error { return m.dispatch(buf) }
+
+// VerifPending returns a copy of the pending-packet queue.
+func (m *Mux) VerifPending() [][]byte {
+	m.lock.Lock()
+	defer m.lock.Unlock()
+	out := make([][]byte, 0, len(m.pendingPackets))
+	for _, p := range m.pendingPackets {
+		out = append(out, append([]byte{}, p...))
+	}
+
+	return out
+}
+
+// VerifSetLimitSize changes the byte limit of the endpoint's buffer (NewEndpoint sets maxBufferSize).
+func (e *Endpoint) VerifSetLimitSize(limit int) { e.buffer.SetLimitSize(limit) }
+
+// VerifCount is the number of packets waiting in the endpoint's buffer.
+func (e *Endpoint) VerifCount() int { return e.buffer.Count() }
